@@ -179,3 +179,47 @@ def enclosing_map(tree):
         for c in ast.iter_child_nodes(p):
             parents[c] = p
     return parents
+
+
+def expand_locals(func, stmt, expr, _depth=0):
+    """Rewrite ``expr`` (read at top-level statement ``stmt`` of ``func``) with local names replaced by the expressions that
+    the straight-line code before ``stmt`` binds them to.  Understood binding forms (top level of the function body only):
+    ``x = e`` and ``if <test>: …; x = e`` without else (gives ``e if <test> else <earlier x>``; when the test is ``x is not
+    None`` the else arm is the constant None).  Anything else leaves the name in place."""
+    import copy as _copy
+
+    body = list(func.body)
+    if stmt not in body or _depth > 6:
+        return expr
+    before = body[: body.index(stmt)]
+
+    def value_of(name, upto):
+        for i in range(len(upto) - 1, -1, -1):
+            s = upto[i]
+            if isinstance(s, ast.Assign) and len(s.targets) == 1 and isinstance(s.targets[0], ast.Name) and s.targets[0].id == name:
+                return subst(s.value, upto[:i])
+            if isinstance(s, ast.If) and not s.orelse:
+                inner = [b for b in s.body if isinstance(b, ast.Assign) and len(b.targets) == 1 and isinstance(b.targets[0], ast.Name) and b.targets[0].id == name]
+                if inner:
+                    last = inner[-1]
+                    val = subst(last.value, upto[:i] + s.body[: s.body.index(last)])
+                    t = s.test
+                    is_not_none = (isinstance(t, ast.Compare) and len(t.ops) == 1 and isinstance(t.ops[0], ast.IsNot) and isinstance(t.left, ast.Name)
+                                   and t.left.id == name and isinstance(t.comparators[0], ast.Constant) and t.comparators[0].value is None)
+                    other = ast.Constant(value=None) if is_not_none else (value_of(name, upto[:i]) or ast.Name(id=name, ctx=ast.Load()))
+                    return ast.IfExp(test=t, body=val, orelse=other)
+            if any(isinstance(x, ast.Name) and isinstance(x.ctx, ast.Store) and x.id == name for x in ast.walk(s)):
+                return None  # bound in a form not modelled
+        return None
+
+    def subst(e, upto):
+        class R(ast.NodeTransformer):
+            def visit_Name(self, n):
+                if isinstance(n.ctx, ast.Load):
+                    v = value_of(n.id, upto)
+                    if v is not None:
+                        return v
+                return n
+        return R().visit(_copy.deepcopy(e))
+
+    return ast.fix_missing_locations(subst(expr, before))
